@@ -170,6 +170,8 @@ pub fn rich_digest<P: Payload>(w: &World<P>) -> u64 {
     let a = &w.arena;
     let cap = w.m.live_count();
     let mut h = table_digest(w);
+    // the same code must size its storage identically in every feature build
+    h = splitmix(h ^ (a.capacity() as u64).rotate_left(9) ^ (a.count() as u64).rotate_left(33) ^ a.is_empty() as u64);
     let r = catch_unwind(AssertUnwindSafe(|| {
         let mut s = String::new();
         let f = |v: Vec<indextree::NodeId>| v.iter().map(|i| usize::from(*i).to_string()).collect::<Vec<_>>().join(",");
